@@ -73,6 +73,11 @@ class Eff:
         return '<%s %s>' % (self.kind, self.text())
 
 
+OPERATOR_FUNCS = {'add': ast.Add, 'iadd': ast.Add, 'sub': ast.Sub, 'isub': ast.Sub, 'mul': ast.Mult, 'imul': ast.Mult, 'mod': ast.Mod, 'imod': ast.Mod,
+                  'floordiv': ast.FloorDiv, 'ifloordiv': ast.FloorDiv, 'and_': ast.BitAnd, 'iand': ast.BitAnd, 'or_': ast.BitOr, 'ior': ast.BitOr,
+                  'xor': ast.BitXor, 'ixor': ast.BitXor, 'lshift': ast.LShift, 'ilshift': ast.LShift, 'rshift': ast.RShift, 'irshift': ast.RShift}
+
+
 class Path:
     def __init__(self):
         self.guards = []
@@ -733,6 +738,15 @@ class Walker:
         itr = self.ev(s.iter, st, d)
         if isinstance(itr, (ast.Tuple, ast.List)) and 0 < len(itr.elts) <= 6 and not any(isinstance(x, ast.Starred) for x in itr.elts) and not st.loopdepth:
             return self._unrolled(s, st, d, itr.elts)
+        # a module-level table (a display bound once, never mutated): the same thing as the display
+        seqs = getattr(self, 'module_sequences', None)
+        if seqs is not None and isinstance(itr, ast.Name) and isinstance(s.iter, ast.Name) and self.module and not st.loopdepth:
+            try:
+                tab = seqs(self.module).get(itr.id)
+            except KeyError:
+                tab = None
+            if tab is not None and all(isinstance(x, (ast.Tuple, ast.List, ast.Constant)) for x in tab.elts):
+                return self._unrolled(s, st, d, tab.elts)
         return self._loop(s, st, d, 'for', s.target, itr, None)
 
     def _unrolled(self, s, st, d, elts):
@@ -1318,6 +1332,9 @@ class _Ev:
                 and isinstance(args[1].value, str) and args[1].value.isidentifier():
             return self.v_Attribute(ast.Attribute(value=e.args[0], attr=args[1].value, ctx=ast.Load()), cond)
         in_binder = bool(self.shadow)
+        # operator.add(a, b) is a + b (also the in-place spellings: the operands of the rules are numbers / bytes)
+        if isinstance(func, ast.Attribute) and isinstance(func.value, ast.Name) and func.value.id == 'operator' and func.attr in OPERATOR_FUNCS and len(args) == 2 and not kws:
+            return ast.BinOp(left=args[0], op=OPERATOR_FUNCS[func.attr](), right=args[1])
         if isinstance(func, ast.Attribute) and not kws and not any(isinstance(a, ast.Starred) for a in args):
             r = self._record_member(func.value, func.attr, args)
             if r is not None:
